@@ -18,7 +18,7 @@ RES = ["thread", "async-thread", "main-thread"]
 # generator
 # ------------------------------------------------------------------------------------------------
 def gen_shape(rng, nmin=2, nmax=9, mix=None, pri="small", seq_rate=0.2, flags=True, reuse=True, mc_max=4,
-              kinds=True, max_deps=3, setup_rate=0.0):
+              kinds=True, max_deps=3, setup_rate=0.0, tag_rate=0.0):
     n = rng.randint(nmin, nmax)
     mix = mix or rng.choice(["thread", "async", "mixed", "mixed_main", "thread_main", "async_main"])
     fns = {}
@@ -88,6 +88,16 @@ def gen_shape(rng, nmin=2, nmax=9, mix=None, pri="small", seq_rate=0.2, flags=Tr
             if not uses_param and not reused and nd["active"] is None and all(q in st for q in dps) and rng.random() < setup_rate:
                 st.add(i)
                 fns[nd["fn"]]["setup"] = True
+    if kinds and rng.random() < tag_rate:
+        # tags (decorator level): shared by several functions, or spelled exactly like the id of ANOTHER node - a string
+        # alias is a tag first and a node id second
+        names = sorted(fns)
+        for fn in names:
+            r = rng.random()
+            if r < 0.3:
+                fns[fn]["tag"] = "T"
+            elif r < 0.5 and len(names) > 1:
+                fns[fn]["tag"] = rng.choice([x for x in names if x != fn])
     spec = {
         "name": "prog",
         "params": ["x"],
